@@ -53,7 +53,7 @@ CHECKS = {
  "C15": ("exploration", "property-based testing (proptest): metamorphic shape test (same gadget program, two generated value assignments, setup vs proving mode -> identical constraint-matrix digest); public-input allocation invariant; differential test of the repository's own seven pinned circuits against the pinned Groth16 keys (prove with pinned pk, verify with pinned vk, every altered public input rejected)",
          "Generated-input search over programs, value pools and witnesses incl. identity and both coset representatives; the circuits are included verbatim from tests/groth16_gadgets.rs of the tree under test.",
          "ark-groth16 / ark-relations trusted; embedded constants are part of a circuit's definition and held fixed.", "5/C15"),
- "C14": ("fault_enumeration", "fault injection + property-based testing (proptest): prover hints substituted through a guarded hook (enumerated set containing every (flag, y) able to satisfy any case equation, applied at one site or all sites, plus random values) and adversarial witness coordinates, over gadget instances, composed gadget programs and the repository's pinned circuits with false statements; oracle: satisfied => native accepts and outputs equal native",
+ "C14": ("fault_enumeration", "fault injection + property-based testing (proptest): prover hints substituted through a guarded hook (enumerated set containing every (flag, y) able to satisfy any case equation, applied at one site or all sites, plus random values) adversarial witness coordinates, non-canonical bit decompositions, and single-witness forgeries with re-derivation of the later witnesses on the extracted constraint matrices, over gadget instances, composed gadget programs and the repository's pinned circuits with false statements; oracle: satisfied => native accepts and outputs equal native",
          "Enumerates the 47-element substitution set on every gadget instance of the edge list (den = 0 sites included) and explores generated inputs / programs / substitutions beyond it; evidence has the gadget x substitution x {sat, unsat} matrix. One known finding (isqrt at den = 0 accepts (true, +-1)) is tolerated by exact signature.",
          "Soundness of ark-r1cs-std's own gadgets is assumed; a synthesis error or panic under dishonest hints counts as rejection.", "5/C14"),
 }
